@@ -176,8 +176,11 @@ def n_hop(nb, hops):
     ret = [set(s) for s in nb]
     pw = [set(s) for s in nb]
     for _ in range(1, hops):
-        pw = [set().union(*[nb[k] for k in pw[i]]) if pw[i] else set() for i in range(n)]
-        ret = [ret[i] | pw[i] for i in range(n)]
+        pw2 = [set().union(*[nb[k] for k in pw[i]]) if pw[i] else set() for i in range(n)]
+        ret2 = [ret[i] | pw2[i] for i in range(n)]
+        if pw2 == pw and ret2 == ret:
+            break                      # saturated (large hop counts)
+        pw, ret = pw2, ret2
     return [sorted(ret[i] - {i}) for i in range(n)]
 
 
